@@ -24,9 +24,17 @@ MANIFEST = dict(
          "transparency ONLY when one backend/user file is behind all scopes "
          "(c16_cache_never_upgrades_partial; negation witnessed for per-condition backends: open finding); "
          "max-age: entries at most max-age+8 s old ONLY while the loop iterates every second (c16_cache_expires, "
-         "c16_cache_forgets; witness that a stalled loop breaks it; the code has no age test on a hit). TESTED "
+         "c16_cache_forgets; witness that a stalled loop breaks it; the code has no age test on a hit); the "
+         "container behind the cache map (algo_splaytree.c top-down splay, insert_splayed, delete_splayed_node, "
+         "http_auth_cache_query/_insert) refines that map: splay keeps the in-order entries of ANY tree, on a "
+         "search tree query = Cache.lookup, query+insert = Cache.insert, splay+delete removes exactly one key, "
+         "mod_auth_periodic_cleanup (post-order tag walk, batch limit for every cap > 0, do-while) = Cache.cleanup "
+         "(c16_splay_keeps_entries, c16_tree_query_is_map_lookup, c16_tree_query_refines_cache_lookup, "
+         "c16_tree_insert_refines_cache, c16_tree_delete_exact, c16_tree_cleanup_refines_cache, "
+         "c16_cache_keys_distinct_kept); serve/run themselves stay stated on the map. "
+         "TESTED "
          "only: that the model is the C (differential runs under ASan/UBSan, exhaustive small-scope parser / "
-         "base64 probes), REMOTE_USER/AUTH_TYPE/challenge text, RFC 7616/7617 reading of headers (Python oracle)",
+         "base64 probes; tree shape after every container op incl. mod_auth_periodic_cleanup with >8192 expired entries, checked against a Python dict), REMOTE_USER/AUTH_TYPE/challenge text, RFC 7616/7617 reading of headers (Python oracle)",
     note="trusted: Lean kernel (+propext, Classical.choice, Quot.sound), hand-written model validated by the "
          "h_auth correspondence (backend scope selection emulated by setting plugin defaults per request; confirmed "
          "against the real server by the thorough-tier e2e probe), MD5 uninterpreted (collision resistance / "
@@ -34,7 +42,7 @@ MANIFEST = dict(
          "this build; 'valid credentials' are stated through the model's transcription of lighttpd's parsers, not "
          "an RFC grammar; user files constant over a history except through backend scopes; outside: extern "
          "scheme / auth.extern-authn, force_lowercase_filenames rule lookup, delivery of the 401/400 by the "
-         "response glue, uint16 truncation of parameter lengths (headers < 64 KiB)",
+         "response glue, splaytree_insert/splaytree_delete (unused by mod_auth), uint16 truncation of parameter lengths (headers < 64 KiB)",
     tech="Lean 4 proof over hand-written model + differential correspondence (in-process C harness; small e2e probe)",
     ref="6/C16")
 
@@ -473,10 +481,187 @@ def oracle_run_at(line, out):
     return None
 
 
+# ---- auth.cache container: algo_splaytree.c + http_auth_cache_query/insert + mod_auth_periodic_cleanup -------
+
+SPLAY_CAP = 8192            # keys[8192] in mod_auth_periodic_cleanup()
+I32MIN, I32MAX = -2**31, 2**31 - 1
+
+
+def _splay_parse(s):
+    """'(' left key ':' ctime right ')' | '.'  ->  in-order [(key, ctime)], root key (iterative)"""
+    out, root, i, depth = [], None, 0, 0
+    n = len(s)
+    while i < n:
+        c = s[i]
+        if c == "(":
+            depth += 1
+            i += 1
+        elif c == ")":
+            depth -= 1
+            i += 1
+        elif c == ".":
+            i += 1
+        else:
+            j = s.index(":", i)
+            k = int(s[i:j])
+            e = j + 1
+            while e < n and (s[e].isdigit() or s[e] == "-"):
+                e += 1
+            out.append((k, int(s[j + 1:e])))
+            if depth == 1:
+                root = k
+            i = e
+    if depth != 0:
+        raise ValueError("unbalanced")
+    return out, root
+
+
+def oracle_splay(line, out):
+    """independent statement: the container is a finite map (Python dict) — a query finds exactly what
+    was last inserted under the key and not cleaned up, nothing is lost, duplicated or invented, the
+    tree is a search tree, a key just looked up / inserted is at the root, cleanup removes exactly the
+    entries with cur - ctime > max-age"""
+    f = line.split(" ")
+    max_age = int(f[1])
+    ops = f[3:]
+    outs = out.split(" ") if out != "-" else []
+    if len(outs) != len(ops):
+        return "auth.cache container: %d outputs for %d operations" % (len(outs), len(ops))
+    ref = {}
+    for n, (op, o) in enumerate(zip(ops, outs)):
+        kind = op[0]
+        shape = None
+        if kind in "qiI":
+            a = op[1:].split(",")
+            k = int(a[0])
+            cut = o.index("(") if "(" in o else (o.index(".") if "." in o else len(o))
+            found, shape = o[:cut], o[cut:]
+            want = str(ref[k]) if k in ref else "-"
+            if found != want:
+                return ("auth.cache container: query for key %d answers %s, the entry stored is %s (op %d)"
+                        % (k, found, want, n))
+            if kind in "iI":
+                ref[k] = int(a[1])
+            if kind == "I":
+                continue
+        else:
+            cur = int(op[1:])
+            ref = {k: v for k, v in ref.items() if not (cur - v > max_age)}
+            shape = o
+        try:
+            items, root = _splay_parse(shape)
+        except ValueError:
+            return "auth.cache container: unreadable tree dump (op %d)" % n
+        if any(items[j][0] >= items[j + 1][0] for j in range(len(items) - 1)):
+            return "auth.cache container: tree is not a search tree after op %d (%s)" % (n, op)
+        if items != sorted(ref.items()):
+            lost = sorted(set(ref.items()) - set(items))[:3]
+            extra = sorted(set(items) - set(ref.items()))[:3]
+            return ("auth.cache container: contents differ from the map of live entries after op %d (%s): "
+                    "missing %s, unexpected %s" % (n, op, lost, extra))
+        if kind in "qi" and k in ref and root != k:
+            return "auth.cache container: key %d not at the root after op %d (%s)" % (k, n, op)
+    return None
+
+
+def classify_splay(line, out):
+    f = line.split(" ")
+    ops = f[3:]
+    outs = out.split(" ")
+    fl = set()
+    if len(outs) == len(ops):
+        for op, o in zip(ops, outs):
+            cut = o.index("(") if "(" in o else (o.index(".") if "." in o else len(o))
+            hit = o[:cut] != "-"
+            if op[0] == "q":
+                fl.add("qhit" if hit else "qmiss")
+            elif op[0] in "iI":
+                fl.add("repl" if hit else "new")
+            else:
+                fl.add("clean-empty" if o == "." else "clean")
+    fl.add("n%d" % min(len(ops).bit_length(), 6))
+    return "splay:" + ",".join(sorted(fl))
+
+
+def splay_lines(ctx):
+    import itertools
+    rng = ctx.rng
+    lines = []
+    # exhaustive small scope: every sequence over {query, insert} x 3 keys + cleanup; time = op index
+    alpha = ["q1", "q2", "q3", "i1", "i2", "i3", "c"]
+    maxlen = 4 if ctx.quick else 5
+    nex = 0
+    for ma in (0, 2):
+        for L in range(0, maxlen + 1):
+            for seq in itertools.product(alpha, repeat=L):
+                ops = []
+                for j, a in enumerate(seq):
+                    ops.append("c%d" % j if a == "c" else (a + ",%d" % j if a[0] == "i" else a))
+                lines.append(" ".join(["splay", str(ma), str(SPLAY_CAP)] + ops))
+                nex += 1
+    ctx.dist["splay exhaustive (<=%d ops over 3 keys + cleanup, 2 max-age values)" % maxlen] += nex
+    # structured random histories
+    special = [I32MIN, I32MIN + 1, -1, 0, 1, I32MAX - 1, I32MAX]
+    nrand = 3000 if ctx.quick else 30000
+    for _ in range(nrand):
+        nk = rng.choice((2, 3, 5, 8, 16, 40))
+        style = rng.choice(("rand32", "dense", "special", "asc"))
+        if style == "rand32":
+            keys = [rng.randint(I32MIN, I32MAX) for _ in range(nk)]
+        elif style == "dense":
+            b = rng.randint(-50, 50)
+            keys = list(range(b, b + nk))
+        elif style == "special":
+            keys = special + [rng.randint(-5, 5) for _ in range(max(0, nk - len(special)))]
+        else:
+            keys = sorted(rng.randint(-1000, 1000) for _ in range(nk))
+        max_age = rng.choice((-1, 0, 1, 3, 8, 20, 600))
+        now = rng.choice((0, 1, 1000, 2**33))
+        wild = rng.random() < 0.15          # malformed-ish: entry times not monotone / in the future
+        nops = rng.randint(5, 70)
+        ops = []
+        asc_i = 0
+        for _ in range(nops):
+            now += rng.choice((0, 0, 1, 1, 2, 5, 9))
+            x = rng.random()
+            if x < 0.45:
+                if style == "asc" and rng.random() < 0.7:
+                    k = keys[asc_i % len(keys)]
+                    asc_i += 1
+                else:
+                    k = rng.choice(keys)
+                ct = now + rng.randint(-30, 30) if wild else now
+                ops.append("i%d,%d" % (k, ct))
+                ctx.dist["splay op insert"] += 1
+            elif x < 0.85:
+                k = rng.choice(keys) if rng.random() < 0.85 else rng.randint(I32MIN, I32MAX)
+                ops.append("q%d" % k)
+                ctx.dist["splay op query"] += 1
+            else:
+                ops.append("c%d" % now)
+                ctx.dist["splay op cleanup"] += 1
+        ctx.dist["splay history keys=%s" % style] += 1
+        ctx.dist["splay history max-age=%d" % max_age] += 1
+        lines.append(" ".join(["splay", str(max_age), str(SPLAY_CAP)] + ops))
+    # the 8192-key batch limit of mod_auth_periodic_cleanup: exactly 8192, and more than 8192 expired entries
+    for nbig, order in ((SPLAY_CAP + 5, "rand"), (SPLAY_CAP + 300, "rand"), (SPLAY_CAP + 7, "asc")):
+        ks = rng.sample(range(-40000, 40000), nbig)
+        if order == "asc":
+            ks.sort()
+        fresh = set(rng.sample(ks, 5))
+        ops = ["I%d,%d" % (k, 100 if k in fresh else rng.randint(0, 9)) for k in ks]
+        ops += ["c100", "q%d" % ks[0], "q%d" % sorted(fresh)[0]]
+        lines.append(" ".join(["splay", "50", str(SPLAY_CAP)] + ops))
+        ctx.dist["splay cleanup batch limit (%d expired of %d, %s order)" % (nbig - 5, nbig, order)] += 1
+    return lines
+
+
 def oracle(line, out):
     if out == "<crash>":
         return None
     t = line.split(" ", 1)[0]
+    if t == "splay":
+        return oracle_splay(line, out)
     if t == "run":
         return oracle_run(line, out)
     if t == "b64":
@@ -502,6 +687,8 @@ def oracle(line, out):
 
 def classify(line, out):
     t = line.split(" ", 1)[0]
+    if t == "splay":
+        return classify_splay(line, out)
     if t == "run":
         f = line.split(" ", 6)
         kinds = set()
@@ -1242,6 +1429,8 @@ def run(ctx):
     ctx.differential("auth scenarios", [exe], "auth", lines, oracle, classify)
     ctx.differential("auth probes (digest parser / base64 / compare)", [exe], "auth", probe_lines(ctx), oracle, classify)
     ctx.differential("nonce timestamp overflow", [exe], "auth", overflow_scenarios(), oracle, classify)
+    ctx.differential("auth.cache container (splay tree: query / insert / periodic cleanup)", [exe], "auth",
+                     splay_lines(ctx), oracle, classify)
     if not ctx.quick:
         e2e_cross_scope(ctx)
     ctx.rule = ("cases: whole scenarios (backend + user file + rules + cache + cache-key hash + sequence of requests and "
